@@ -426,7 +426,9 @@ pub fn truncate_and_round(
     } else if rem == 0 {
         // Even radix, our halfway point `$c00000.....`.
         let truncated = &buffer[start + max_digits + 1..end];
-        if truncated.iter().all(|&x| x == b'0') && last & 1 == 0 {
+        // NOTE: The parity is of the digit, not of its character (`A` is 10).
+        let is_even = char_to_digit_const(last, radix).map_or(true, |digit| digit & 1 == 0);
+        if truncated.iter().all(|&x| x == b'0') && is_even {
             // At an exact halfway point, and even, round-down.
             (max_digits, false)
         } else {
